@@ -9,18 +9,25 @@ package filesystem
 // fsnotify operation, previous state and processor answer.
 
 import (
+	"context"
 	"crypto/sha256"
+	"encoding/hex"
+	"encoding/json"
 	"errors"
 	"fmt"
 	"os"
+	"os/exec"
 	"path/filepath"
 	"strings"
+	"sync"
 	"syscall"
 	"testing"
+	"time"
 
 	"github.com/fsnotify/fsnotify"
 	"github.com/rs/zerolog"
 
+	"github.com/dadrus/heimdall/internal/config"
 	config2 "github.com/dadrus/heimdall/internal/rules/config"
 	"github.com/dadrus/heimdall/internal/zzverif/c19gen"
 	"github.com/dadrus/heimdall/internal/zzverif/vf"
@@ -52,6 +59,7 @@ var c19RuleSets = []string{
 }
 
 type c19FsCase struct {
+	Env     bool     `json:"env_vars_enabled,omitempty"`
 	Op      []string `json:"op"`
 	Pre     string   `json:"pre"`  // none same other
 	File    string   `json:"file"` // content missing notdir fifo-vanish
@@ -68,8 +76,12 @@ type c19FsObs struct {
 }
 
 func TestVerifC19FS(t *testing.T) {
+	t.Setenv("C19_X", "from-env")
+
 	w := vf.NewWriter()
 	defer w.Close()
+
+	c19FSLoop(t, w)
 
 	root := vf.NewRand(vf.Seed())
 	quick := os.Getenv("VERIF_TIER") == "quick"
@@ -122,7 +134,7 @@ func TestVerifC19FS(t *testing.T) {
 		case x < 65:
 			c.File, c.Content = "content", b[:r.Intn(len(b)+1)]
 		case x < 72:
-			c.File, c.Content = "content", vf.Pick(r, []string{"", "\n", "# nothing\n", "a: [", "null\n", "{}\n", "- a\n"})
+			c.File, c.Content = "content", vf.Pick(r, []string{"", "\n", "# nothing\n", "a: [", "null\n", "{}\n", "- a\n", "${", "${C19_X}", "$", "a: ${C19_X", b + "# ${C19_X}\n"})
 		case x < 84:
 			c.File = "missing"
 		case x < 90:
@@ -140,11 +152,12 @@ func TestVerifC19FS(t *testing.T) {
 		}
 
 		c := cases[i]
+		c.Env = i%3 == 1
 		dir := t.TempDir()
 		name := filepath.Join(dir, "rules.yaml")
 		in := c19gen.NewInterner()
 		proc := &c19Proc{ok: true}
-		p := &Provider{src: dir, p: proc, l: zerolog.Nop(), configured: true}
+		p := &Provider{src: dir, p: proc, l: zerolog.Nop(), configured: true, envVarsEnabled: c.Env}
 
 		// previous state: the file was loaded before with the same / another content
 		prevContent := ""
@@ -185,7 +198,7 @@ func TestVerifC19FS(t *testing.T) {
 		evName := name
 
 		classify := func(content string) string {
-			_, err := config2.ParseRules("application/yaml", strings.NewReader(content), false)
+			_, err := config2.ParseRules("application/yaml", strings.NewReader(content), c.Env)
 
 			switch {
 			case errors.Is(err, config2.ErrEmptyRuleSet):
@@ -274,7 +287,7 @@ func TestVerifC19FS(t *testing.T) {
 			obsCoq = vf.CoqApp("FsDone", vf.CoqApp("fsr", vf.CoqOpt(o.State != 0, fmt.Sprint(o.State)), vf.CoqList(o.Calls), vf.CoqBool(o.Err)))
 		}
 
-		tags := []string{"op=" + strings.Join(c.Op, "|"), "pre=" + c.Pre, "file=" + c.File, "read=" + strings.Fields(strings.Trim(read, "()"))[0],
+		tags := []string{fmt.Sprintf("env=%v", c.Env), "op=" + strings.Join(c.Op, "|"), "pre=" + c.Pre, "file=" + c.File, "read=" + strings.Fields(strings.Trim(read, "()"))[0],
 			"out=" + strings.SplitN(o.Outcome, ":", 2)[0], fmt.Sprintf("proc_ok=%v", c.ProcOK)}
 		if i < nsys {
 			tags = append(tags, "systematic")
@@ -289,5 +302,290 @@ func TestVerifC19FS(t *testing.T) {
 			Nontrivial: len(o.Calls) > 0 || o.Err || site != "",
 			Tags:       tags,
 		})
+	}
+}
+
+// ---- the provider's watch LOOP, end to end in a child process -------------------------------------------------
+//
+// The real Provider (NewProvider + Start: real fsnotify watcher, `go p.watchFiles()`), a recording processor and a
+// sequence of ATOMIC replacements of the rule file (temp file outside the watched directory, rename over the target:
+// one event per step), bad, bad, good, …, with an error fed into the watcher's Errors channel in between.  After
+// every step the child waits until the loop has shown an effect (processor call or "Failed to apply" log line: the
+// "watcher alive" observable).  Cases 100000..: one per step, checked against the single-event model with the
+// previous observed state.
+
+type c19LoopStep struct {
+	Content string `json:"content"`
+	Remove  bool   `json:"remove,omitempty"`
+	ProcOK  bool   `json:"proc_ok"`
+	FeedErr bool   `json:"feed_error,omitempty"` // before this step an error is sent on the watcher's Errors channel
+}
+
+type c19LoopObs struct {
+	Delivered bool     `json:"delivered"`
+	Calls     []string `json:"calls"`
+	Failed    bool     `json:"failed"` // the loop logged "Failed to apply rule set changes"
+	State     string   `json:"state"`  // hex of the stored hash, "" = none
+}
+
+type c19SyncBuf struct {
+	mu sync.Mutex
+	b  strings.Builder
+}
+
+func (s *c19SyncBuf) Write(p []byte) (int, error) {
+	s.mu.Lock()
+	defer s.mu.Unlock()
+
+	return s.b.Write(p)
+}
+
+func (s *c19SyncBuf) Count(sub string) int {
+	s.mu.Lock()
+	defer s.mu.Unlock()
+
+	return strings.Count(s.b.String(), sub)
+}
+
+type c19LoopProc struct {
+	mu    sync.Mutex
+	ok    bool
+	calls []string
+}
+
+func (p *c19LoopProc) answer(call string) error {
+	p.mu.Lock()
+	defer p.mu.Unlock()
+
+	p.calls = append(p.calls, call)
+	if !p.ok {
+		return errC19Rejected
+	}
+
+	return nil
+}
+
+func (p *c19LoopProc) OnCreated(*config2.RuleSet) error { return p.answer("PCreated") }
+func (p *c19LoopProc) OnUpdated(*config2.RuleSet) error { return p.answer("PUpdated") }
+func (p *c19LoopProc) OnDeleted(*config2.RuleSet) error { return p.answer("PDeleted") }
+
+func (p *c19LoopProc) take(ok bool) []string {
+	p.mu.Lock()
+	defer p.mu.Unlock()
+
+	calls := p.calls
+	p.calls, p.ok = nil, ok
+
+	return calls
+}
+
+func (p *c19LoopProc) n() int {
+	p.mu.Lock()
+	defer p.mu.Unlock()
+
+	return len(p.calls)
+}
+
+func TestVerifC19FSLoopChild(t *testing.T) {
+	raw := os.Getenv("C19_FSLOOP_CASE")
+	if raw == "" {
+		t.Skip()
+	}
+
+	var steps []c19LoopStep
+	if err := json.Unmarshal([]byte(raw), &steps); err != nil {
+		t.Fatal(err)
+	}
+
+	dir, outside := t.TempDir(), t.TempDir()
+	name := filepath.Join(dir, "rules.yaml")
+	logs := &c19SyncBuf{}
+	proc := &c19LoopProc{ok: true}
+
+	p, err := NewProvider(&config.Configuration{Providers: config.RuleProviders{
+		FileSystem: map[string]any{"src": dir, "watch": true, "env_vars_enabled": true},
+	}}, proc, zerolog.New(logs))
+	if err != nil {
+		t.Fatal(err)
+	}
+
+	if err := p.Start(context.Background()); err != nil {
+		t.Fatal(err)
+	}
+
+	var out []c19LoopObs
+
+	for k, st := range steps {
+		proc.take(st.ProcOK)
+
+		failed := logs.Count("Failed to apply rule set changes")
+
+		if st.FeedErr {
+			p.w.Errors <- errC19Rejected
+		}
+
+		if st.Remove {
+			os.Remove(name)
+		} else {
+			tmp := filepath.Join(outside, fmt.Sprintf("step%d", k))
+			if err := os.WriteFile(tmp, []byte(st.Content), 0o600); err != nil {
+				t.Fatal(err)
+			}
+
+			if err := os.Rename(tmp, name); err != nil {
+				t.Fatal(err)
+			}
+		}
+
+		o := c19LoopObs{}
+
+		for deadline := time.Now().Add(30 * time.Second); time.Now().Before(deadline); time.Sleep(2 * time.Millisecond) {
+			if proc.n() > 0 || logs.Count("Failed to apply rule set changes") > failed {
+				o.Delivered = true
+
+				break
+			}
+		}
+
+		time.Sleep(30 * time.Millisecond) // a second event of the same step, if any
+
+		o.Calls = proc.take(true)
+		o.Failed = logs.Count("Failed to apply rule set changes") > failed
+
+		if v, ok := p.states.Load(name); ok {
+			o.State = hex.EncodeToString(v.([]byte))
+		}
+
+		out = append(out, o)
+
+		b, _ := json.Marshal(out)
+		fmt.Println("C19-FSLOOP-RESULT " + string(b))
+	}
+}
+
+func c19FSLoop(t *testing.T, w *vf.Writer) {
+	t.Helper()
+
+	root := vf.NewRand(vf.Seed() + 71)
+	good := append([]string{}, c19RuleSets...)
+	good = append(good, "version: \"1alpha4\"\nrules:\n- id: ${C19_X}\n  match:\n    routes:\n    - path: /env\n  execute:\n  - authenticator: x\n")
+	bad := []string{"a: [", c19RuleSets[1][:57], "version: \"1alpha4\"\n", "${", "rules: {1: x}\n", "- a\n", "version: \"1alpha4\"\nrules:\n- id: a\n  match: {1: x}\n"}
+
+	steps := []c19LoopStep{
+		{Content: good[0], ProcOK: true}, // initial load through the loop (the directory starts empty)
+		{Content: bad[0], ProcOK: true},
+		{Content: bad[1], ProcOK: true, FeedErr: true},
+		{Content: good[1], ProcOK: true},
+		{Content: bad[root.Intn(len(bad))], ProcOK: true},
+		{Content: good[2], ProcOK: false}, // the processor rejects it
+		{Content: vf.Pick(root, good[:2]) + "# again\n", ProcOK: true, FeedErr: true},
+		{Remove: true, ProcOK: true},
+		{Content: good[0] + "# back\n", ProcOK: true},
+	}
+
+	wanted := false
+	for k := range steps {
+		wanted = wanted || vf.Want(100000+k)
+	}
+
+	if !wanted {
+		return
+	}
+
+	raw, _ := json.Marshal(steps)
+	cmd := exec.Command(os.Args[0], "-test.run", "^TestVerifC19FSLoopChild$", "-test.v")
+	cmd.Env = append(os.Environ(), "C19_FSLOOP_CASE="+string(raw), "VERIF_OUT=/dev/null", "C19_X=from-env")
+	outb, err := cmd.CombinedOutput()
+	text := string(outb)
+
+	var res []c19LoopObs
+
+	for _, line := range strings.Split(text, "\n") {
+		if strings.HasPrefix(line, "C19-FSLOOP-RESULT ") {
+			var r []c19LoopObs
+			if json.Unmarshal([]byte(strings.TrimPrefix(line, "C19-FSLOOP-RESULT ")), &r) == nil {
+				res = r
+			}
+		}
+	}
+
+	in := c19gen.NewInterner()
+	stateID := func(h string) int {
+		if h == "" {
+			return 0
+		}
+
+		b, _ := hex.DecodeString(h)
+
+		return in.ID("hash", b)
+	}
+	pre := 0
+
+	for k, st := range steps {
+		i := 100000 + k
+
+		read := "RdOpenNotExist"
+		if !st.Remove {
+			_, perr := config2.ParseRules("application/yaml", strings.NewReader(st.Content), true)
+
+			switch {
+			case errors.Is(perr, config2.ErrEmptyRuleSet):
+				read = "RdEmpty"
+			case perr != nil:
+				read = "RdBad"
+			default:
+				sum := sha256.Sum256([]byte(st.Content))
+				read = fmt.Sprintf("(RdParsed %d)", in.ID("hash", sum[:]))
+			}
+		}
+
+		var (
+			obsCoq string
+			o      any
+			out    string
+		)
+
+		switch {
+		case k < len(res) && res[k].Delivered:
+			out = "done"
+			o = res[k]
+			obsCoq = vf.CoqApp("FsDone", vf.CoqApp("fsr", vf.CoqOpt(res[k].State != "", fmt.Sprint(stateID(res[k].State))),
+				vf.CoqList(res[k].Calls), vf.CoqBool(res[k].Failed)))
+		case k < len(res):
+			out = "watcher-stopped"
+			o = map[string]any{"msg": "the watch loop showed no effect of the event within 30 s (stopped?)", "obs": res[k]}
+			obsCoq = "(FsExit SOther)"
+		default:
+			site := "SOther"
+			if strings.Contains(text, "nil pointer dereference") && strings.Contains(text, "loadRuleSet") {
+				site = "SStatNil"
+			} else if strings.Contains(text, "interface conversion") && strings.Contains(text, "mapstructure") {
+				site = "SDecode"
+			}
+
+			out = "exit"
+			o = map[string]any{"msg": fmt.Sprint("child: ", err, " ", text[:min(len(text), 500)])}
+			obsCoq = "(FsExit " + site + ")"
+		}
+
+		if vf.Want(i) {
+			bits := vf.CoqApp("bits", "true", "false", "false", "false", "false") // rename into the directory: Create
+			if st.Remove {
+				bits = vf.CoqApp("bits", "false", "false", "false", "true", "false")
+			}
+
+			w.Put(vf.Obs{
+				I: i, Stream: "fs-loop", In: st, Out: o,
+				Coq:        vf.CoqApp("fsc", vf.CoqOpt(pre != 0, fmt.Sprint(pre)), bits, read, "true", vf.CoqBool(st.ProcOK), obsCoq),
+				Nontrivial: true,
+				Tags:       []string{"fs-loop", fmt.Sprintf("loop-step=%d", k), "out=" + out},
+			})
+		}
+
+		if out != "done" {
+			break
+		}
+
+		pre = stateID(res[k].State)
 	}
 }
